@@ -3,6 +3,7 @@
 package main
 
 import (
+	"encoding/json"
 	"flag"
 	"fmt"
 	"os"
@@ -38,6 +39,8 @@ func main() {
 		}
 	case "check":
 		os.Exit(runCheck(os.Args[2:]))
+	case "variant":
+		os.Exit(runVariant(os.Args[2:]))
 	case "debug":
 		runDebug(os.Args[2:])
 	default:
@@ -88,9 +91,59 @@ func runCheck(args []string) (code int) {
 	rule.Run(c, *tier)
 	extra := map[string]any{}
 	if *tier == "thorough" {
+		os.Setenv("GROGCHECK_VERIF", *verif)
 		rules.Thorough(c, id, extra)
 	}
 	return c.Finish(*tier, seed, evidence, ff, extra)
+}
+
+// runVariant analyses one in-memory variant of the repository (thorough tier child process).
+func runVariant(args []string) int {
+	if len(args) < 1 {
+		usage()
+	}
+	id := args[0]
+	fs := flag.NewFlagSet("variant", flag.ExitOnError)
+	repo := fs.String("repo", "/repo", "repository working tree")
+	mutFile := fs.String("mutant", "", "mutants.json")
+	index := fs.Int("index", -1, "index into mutants.json")
+	seed := fs.String("seed", "", "seed directory with patch.diff")
+	fs.Parse(args[1:])
+	overlay := map[string][]byte{}
+	switch {
+	case *seed != "":
+		diff, err := os.ReadFile(filepath.Join(*seed, "patch.diff"))
+		if err != nil {
+			fmt.Println(`{"error":"no patch"}`)
+			return 0
+		}
+		ov, err := rules.ApplyUnifiedDiff(*repo, diff)
+		if err != nil {
+			fmt.Printf("{\"error\":%q}\n", err.Error())
+			return 0
+		}
+		overlay = ov
+	case *mutFile != "":
+		data, err := os.ReadFile(*mutFile)
+		if err != nil {
+			return 2
+		}
+		var muts []rules.Mutant
+		if err := json.Unmarshal(data, &muts); err != nil || *index < 0 || *index >= len(muts) {
+			return 2
+		}
+		m := muts[*index]
+		src, err := os.ReadFile(filepath.Join(*repo, m.File))
+		if err != nil || !strings.Contains(string(src), m.Old) {
+			fmt.Println(`{"error":"anchor text not present"}`)
+			return 0
+		}
+		overlay[filepath.Join(*repo, m.File)] = []byte(strings.Replace(string(src), m.Old, m.New, 1))
+	}
+	if rules.Get(id) == nil {
+		return 2
+	}
+	return rules.RunVariant(*repo, id, overlay)
 }
 
 func envOr(k, d string) string {
